@@ -281,12 +281,13 @@ TECHNIQUE["C15"] = "bounded-exhaustive enumeration of types x contents x loading
 PROPS["C12"] = dict(
     level="exploration",
     engine="E1",
-    parts=[dict(bin="e1_oob", timeout_s={"quick": 900, "thorough": 3600})],
+    parts=[dict(bin="e1_oob", timeout_s={"quick": 900, "thorough": 3600}),
+           dict(bin="e1_oob", profile="vg", runner="valgrind", tag="valgrind", tiers=["thorough"], timeout_s={"thorough": 7200})],
     rule="case = (structure instance, safe method, out-of-domain argument): argument alphabet {len, len+1, 2 len, len+63, len+64, 2^32, 2^63, MAX/2+1, MAX-1, MAX} for indices / positions / ranks / start positions / query values, absent keys and arbitrary signatures for functions and filters, iterators polled repeatedly after None, pop on empty, zero chunk sizes, block size 0; structures: 24 bit vectors (empty, singleton, word/block boundaries) with BitVec/AtomicBitVec and 13 rank/select stacks, BitFieldVec<u8|u16|usize|u128> x widths x lengths {0,1,k,k+1,3k+1}, AtomicBitFieldVec, plain slices, 9 Elias-Fano sequences (empty with u = 0 and u > 0, singleton, duplicates, last == u == MAX), 5 rear-coded lists x 3 block sizes, functions over 0/1/2/10/1000 keys for 7 shard/edge x backend combinations and two filters, GF(2) systems, signature store; every case is distinct and counted as non-trivial",
     alphabet="see rule; methods documented as unchecked are excluded, safe methods that forward to unchecked code are the target",
-    bound={"quick": "as in rule", "thorough": "same"},
+    bound={"quick": "as in rule", "thorough": "same table, run twice: strict profile, and a release build without debug assertions under valgrind memcheck (invalid reads/writes attributed to the announced case)"},
     oracle="each call must return or panic by unwinding; a process abort by the standard library's UB checks (out-of-range get_unchecked), SIGSEGV or any other crash is a memory-safety violation (recorded by the supervisor with the source function that performed the access); where the documentation fixes the result for out-of-domain input (rank beyond len = num_ones, select beyond the count = None, index_of/succ/pred of absent or out-of-universe values) the result is checked too",
-    assumptions=STRICT + ["raw-pointer reads that bypass get_unchecked are visible only to the optional valgrind/ASan pass"],
+    assumptions=STRICT + ["raw-pointer reads that bypass get_unchecked are visible only to the valgrind pass of the thorough tier (heap-granular: an access that stays inside the allocation is not seen by it)"],
 )
 LEVEL_TEXT["C12"] = "Exhaustive enumeration of (structure, safe method, out-of-domain argument) triples over a declared table, executed with the standard library's UB checks enabled in crash-isolated workers, so that any out-of-bounds unchecked access aborts and is reported with its call site."
 TECHNIQUE["C12"] = "bounded-exhaustive enumeration of out-of-domain calls under UB-check instrumentation with crash isolation"
